@@ -36,66 +36,81 @@ TvPOf(ft, x) ==
       normal == Cmp(g.lo, P2(Fb)) >= 0
   IN TvP(ft, IF g.neg THEN 1 ELSE 0, IF normal THEN g.qe + Fb + f.Emax ELSE 0, IF normal THEN Sub(g.lo, P2(Fb)) ELSE g.lo)
 
-\* ---- seeds: <<class, sign, numerator, base, exponent>> meaning (-1)^sign * numerator * base^exponent,
-\* or <<"rat", sign, n, d, 0>> meaning n/d
-SInt(c, s, m) == <<c, s, m, 2, 0>>
+\* ---- seeds: <<class, sign, m, base, exponent, delta>> meaning (-1)^sign * (m * base^exponent + delta) with small
+\* native m and delta (the big powers are only computed for the state that renders the seed);
+\* <<"rat", sign, n, d, 0, 0>> is n/d; <<"ratbig", sign, k, 0, 0, 0>> are two rationals built on 10^400
+SInt(c, s, m) == <<c, s, m, 2, 0, 0>>
+Pw(c, s, k, dl) == <<c, s, 1, 2, k, dl>>
 Seeds ==
-  << SInt("zero", 0, <<>>), SInt("one", 0, One), SInt("one", 1, One), SInt("small", 0, N(2)), SInt("small", 0, N(5)), SInt("small", 1, N(5)),
-     SInt("i8", 0, N(127)), SInt("i8", 0, N(128)), SInt("i8", 1, N(128)), SInt("i8", 1, N(129)), SInt("u8", 0, N(255)), SInt("u8", 0, N(256)),
-     SInt("2^24", 0, Sub(P2(24), One)), SInt("2^24", 0, P2(24)), SInt("2^24", 0, Add(P2(24), One)), SInt("2^24", 1, Add(P2(24), One)),
-     SInt("2^31", 0, P2(31)), SInt("2^31", 1, P2(31)), SInt("2^31", 0, Sub(P2(32), One)), SInt("2^31", 0, P2(32)),
-     SInt("2^53", 0, Sub(P2(53), One)), SInt("2^53", 0, P2(53)), SInt("2^53", 0, Add(P2(53), One)), SInt("2^53", 1, Add(P2(53), One)),
-     SInt("2^63", 0, Sub(P2(63), One)), SInt("2^63", 0, P2(63)), SInt("2^63", 1, P2(63)), SInt("2^63", 1, Add(P2(63), One)),
-     SInt("2^64", 0, Sub(P2(64), One)), SInt("2^64", 0, P2(64)), SInt("2^64", 0, Add(P2(64), One)),
-     SInt("2^127", 0, Sub(P2(127), One)), SInt("2^127", 0, P2(127)), SInt("2^127", 1, P2(127)), SInt("2^127", 1, Add(P2(127), One)),
-     SInt("2^128", 0, Sub(P2(128), One)), SInt("2^128", 0, P2(128)), SInt("2^128", 0, Add(P2(128), One)), SInt("2^128", 0, Sub(P2(128), P2(104))),
-     SInt("1e20", 0, Ten(20)), SInt("1e20", 0, Add(Ten(20), One)),
-     <<"1e400", 0, One, 10, 400>>, <<"1e400", 1, One, 10, 400>>, SInt("1e400", 0, Add(Ten(400), One)), SInt("1e400", 0, Sub(Ten(400), One)),
-     <<"3^250", 0, One, 3, 250>>, <<"3^250", 0, N(2), 3, 250>>, <<"16^300", 0, N(15), 16, 300>>, <<"36^200", 0, N(35), 36, 200>>,
-     <<"half", 0, One, 2, -1>>, <<"half", 1, One, 2, -1>>, <<"half", 0, N(3), 2, -2>>, <<"quarter", 0, One, 2, -2>>, <<"quarter", 0, N(3), 2, -3>>,
-     <<"quarter", 0, One, 2, -3>>, <<"tiny2", 0, One, 2, -30>>, <<"tiny2", 0, N(5), 2, -60>>, <<"tiny2", 1, N(5), 2, -60>>,
-     <<"subnormal", 0, One, 2, -149>>, <<"subnormal", 0, N(3), 2, -149>>, <<"subnormal", 0, One, 2, -1074>>, <<"subnormal", 1, One, 2, -1074>>,
-     <<"f32nb", 0, Add(P2(24), One), 2, -10>>, <<"f32nb", 0, P2(24), 2, -10>>, <<"f64nb", 0, Sub(P2(53), One), 2, -60>>, <<"f64nb", 0, P2(53), 2, -60>>,
-     <<"tenth", 0, Tenth53, 2, -56>>, <<"tenth", 0, Sub(Tenth53, One), 2, -56>>, <<"tenth", 0, One, 10, -1>>, <<"tenth", 1, One, 10, -1>>,
-     <<"dec", 0, N(123456789), 10, -3>>, <<"dec", 0, N(123456789), 10, 3>>, <<"dec", 0, N(15), 10, -1>>,
-     <<"1e-400", 0, One, 10, -400>>, <<"1e-400", 1, One, 10, -400>>, <<"1e-400", 0, N(11), 10, -401>>, <<"3^-250", 0, One, 3, -250>>,
-     <<"16^-300", 0, One, 16, -300>>, <<"36^-200", 0, One, 36, -200>>,
-     <<"rat", 0, One, N(3), 0>>, <<"rat", 1, One, N(3), 0>>, <<"rat", 0, N(2), N(3), 0>>, <<"rat", 0, N(22), N(7), 0>>,
-     <<"rat", 0, Add(Ten(400), One), Ten(400), 0>>, <<"rat", 0, One, Add(Ten(400), One), 0>> >>
+  << SInt("zero", 0, 0), SInt("one", 0, 1), SInt("one", 1, 1), SInt("small", 0, 2), SInt("small", 0, 5), SInt("small", 1, 5),
+     SInt("i8", 0, 127), SInt("i8", 0, 128), SInt("i8", 1, 128), SInt("i8", 1, 129), SInt("u8", 0, 255), SInt("u8", 0, 256),
+     Pw("2^24", 0, 24, -1), Pw("2^24", 0, 24, 0), Pw("2^24", 0, 24, 1), Pw("2^24", 1, 24, 1),
+     Pw("2^31", 0, 31, 0), Pw("2^31", 1, 31, 0), Pw("2^31", 0, 32, -1), Pw("2^31", 0, 32, 0),
+     Pw("2^53", 0, 53, -1), Pw("2^53", 0, 53, 0), Pw("2^53", 0, 53, 1), Pw("2^53", 1, 53, 1),
+     Pw("2^63", 0, 63, -1), Pw("2^63", 0, 63, 0), Pw("2^63", 1, 63, 0), Pw("2^63", 1, 63, 1),
+     Pw("2^64", 0, 64, -1), Pw("2^64", 0, 64, 0), Pw("2^64", 0, 64, 1),
+     Pw("2^127", 0, 127, -1), Pw("2^127", 0, 127, 0), Pw("2^127", 1, 127, 0), Pw("2^127", 1, 127, 1),
+     Pw("2^128", 0, 128, -1), Pw("2^128", 0, 128, 0), Pw("2^128", 0, 128, 1), <<"2^128", 0, 16777215, 2, 104, 0>>,
+     <<"1e20", 0, 1, 10, 20, 0>>, <<"1e20", 0, 1, 10, 20, 1>>,
+     <<"1e400", 0, 1, 10, 400, 0>>, <<"1e400", 1, 1, 10, 400, 0>>, <<"1e400", 0, 1, 10, 400, 1>>, <<"1e400", 0, 1, 10, 400, -1>>,
+     <<"3^250", 0, 1, 3, 250, 0>>, <<"3^250", 0, 2, 3, 250, 0>>, <<"16^300", 0, 15, 16, 300, 0>>, <<"36^200", 0, 35, 36, 200, 0>>,
+     <<"half", 0, 1, 2, -1, 0>>, <<"half", 1, 1, 2, -1, 0>>, <<"half", 0, 3, 2, -2, 0>>, <<"quarter", 0, 1, 2, -2, 0>>, <<"quarter", 0, 3, 2, -3, 0>>,
+     <<"quarter", 0, 1, 2, -3, 0>>, <<"tiny2", 0, 1, 2, -30, 0>>, <<"tiny2", 0, 5, 2, -60, 0>>, <<"tiny2", 1, 5, 2, -60, 0>>,
+     <<"subnormal", 0, 1, 2, -149, 0>>, <<"subnormal", 0, 3, 2, -149, 0>>, <<"subnormal", 0, 1, 2, -1074, 0>>, <<"subnormal", 1, 1, 2, -1074, 0>>,
+     <<"f32nb", 0, 16777217, 2, -10, 0>>, <<"f32nb", 0, 16777216, 2, -10, 0>>, <<"f64nb", 0, -1, 2, -60, 0>>, <<"f64nb", 0, -2, 2, -60, 0>>,
+     <<"tenth", 0, -3, 2, -56, 0>>, <<"tenth", 0, -4, 2, -56, 0>>, <<"tenth", 0, 1, 10, -1, 0>>, <<"tenth", 1, 1, 10, -1, 0>>,
+     <<"dec", 0, 123456789, 10, -3, 0>>, <<"dec", 0, 123456789, 10, 3, 0>>, <<"dec", 0, 15, 10, -1, 0>>,
+     <<"1e-400", 0, 1, 10, -400, 0>>, <<"1e-400", 1, 1, 10, -400, 0>>, <<"1e-400", 0, 11, 10, -401, 0>>, <<"3^-250", 0, 1, 3, -250, 0>>,
+     <<"16^-300", 0, 1, 16, -300, 0>>, <<"36^-200", 0, 1, 36, -200, 0>>,
+     <<"rat", 0, 1, 3, 0, 0>>, <<"rat", 1, 1, 3, 0, 0>>, <<"rat", 0, 2, 3, 0, 0>>, <<"rat", 0, 22, 7, 0, 0>>,
+     <<"ratbig", 0, 1, 0, 0, 0>>, <<"ratbig", 0, 2, 0, 0, 0>> >>
 NSeeds == Len(Seeds)
+\* significands too wide for a native literal, by (negative) code
+Wide(m) == CASE m = -1 -> Sub(P2(53), One) [] m = -2 -> P2(53) [] m = -3 -> Tenth53 [] m = -4 -> Sub(Tenth53, One) [] OTHER -> FromNat(m)
 
 Prims == <<"u8", "u16", "u32", "u64", "u128", "usize", "i8", "i16", "i32", "i64", "i128", "isize">>
 PrimBits == <<8, 16, 32, 64, 128, 64, 8, 16, 32, 64, 128, 64>>
 PrimFits(pi, s, m) == IF pi <= 6 THEN s = 0 /\ BitLen(m) <= PrimBits[pi]
                       ELSE BitLen(m) <= PrimBits[pi] - 1 \/ (s = 1 /\ m = P2(PrimBits[pi] - 1))
 
-\* the exact value of a seed as a rational, and whether it is an integer
-SeedQ(sd) == IF sd[1] = "rat" THEN Q(I(sd[2], sd[3]), sd[4])
-             ELSE IF sd[5] >= 0 THEN Q(I(sd[2], Mul(sd[3], Pow(FromNat(sd[4]), sd[5]))), One)
-             ELSE Q(I(sd[2], sd[3]), Pow(FromNat(sd[4]), -sd[5]))
-IsIntSeed(sd) == sd[1] # "rat" /\ sd[5] >= 0
-IntMag(sd) == Mul(sd[3], Pow(FromNat(sd[4]), sd[5]))
+\* the fully evaluated seed: [cls, s, rat (BOOLEAN), sig (BigNat significand in its own base), base, exp, isint, mag (integer
+\* magnitude when isint), q (the exact rational)]
+Eval(sd) ==
+  IF sd[1] = "rat" THEN [cls |-> "rat", s |-> sd[2], rat |-> TRUE, sig |-> <<>>, base |-> 2, exp |-> 0, isint |-> FALSE, mag |-> <<>>,
+                         q |-> Q(I(sd[2], FromNat(sd[3])), FromNat(sd[4]))]
+  ELSE IF sd[1] = "ratbig" THEN [cls |-> "rat", s |-> 0, rat |-> TRUE, sig |-> <<>>, base |-> 2, exp |-> 0, isint |-> FALSE, mag |-> <<>>,
+                         q |-> IF sd[3] = 1 THEN Q(I(0, Add(Ten(400), One)), Ten(400)) ELSE Q(IOne, Add(Ten(400), One))]
+  ELSE LET m == Wide(sd[3])
+           pw == Pow(FromNat(sd[4]), IF sd[5] >= 0 THEN sd[5] ELSE -sd[5])
+           int == sd[5] >= 0
+           mag0 == IF int THEN Mul(m, pw) ELSE <<>>
+           mag == IF sd[6] = 1 THEN Add(mag0, One) ELSE IF sd[6] = -1 THEN Sub(mag0, One) ELSE mag0
+           \* with a delta the value is no longer m * base^exp: it is rendered as an integer only
+           own == sd[6] = 0
+       IN [cls |-> sd[1], s |-> sd[2], rat |-> ~own, sig |-> m, base |-> sd[4], exp |-> sd[5], isint |-> int, mag |-> mag,
+           q |-> IF int THEN Q(I(sd[2], mag), One) ELSE Q(I(sd[2], m), pw)]
 
 \* renderings 1..NRend of a seed; <<>> when the type cannot hold the value exactly
 NRend == 26
-Render(sd, r) ==
-  LET s == sd[2]
-      isint == IsIntSeed(sd)
-      q == SeedQ(sd)
-  IN CASE r = 1 -> IF isint /\ (s = 0 \/ IntMag(sd) = <<>>) THEN <<TvInt("U", 0, IntMag(sd))>> ELSE <<>>
-       [] r = 2 -> IF isint THEN <<TvInt("I", s, IntMag(sd))>> ELSE <<>>
-       [] r \in 3..14 -> IF isint /\ PrimFits(r - 2, s, IntMag(sd)) THEN <<TvInt(Prims[r - 2], s, IntMag(sd))>> ELSE <<>>
+Render(sv, r) ==
+  LET s == sv.s
+      isint == sv.isint
+      q == sv.q
+      own == ~sv.rat
+  IN CASE r = 1 -> IF isint /\ (s = 0 \/ sv.mag = <<>>) THEN <<TvInt("U", 0, sv.mag)>> ELSE <<>>
+       [] r = 2 -> IF isint THEN <<TvInt("I", s, sv.mag)>> ELSE <<>>
+       [] r \in 3..14 -> IF isint /\ PrimFits(r - 2, s, sv.mag) THEN <<TvInt(Prims[r - 2], s, sv.mag)>> ELSE <<>>
        [] r = 15 -> <<TvR("R", s, q.n.m, q.d)>>
        [] r = 16 -> <<TvR("RX", s, MulSmall(q.n.m, 6), MulSmall(q.d, 6))>>
-       [] r = 17 -> IF sd[1] # "rat" /\ ~(sd[4] = 2 /\ sd[5] = 0) THEN <<TvF(sd[4], s, sd[3], sd[5])>> ELSE <<>>                 \* the seed's own base
-       [] r = 18 -> IF isint THEN <<TvF(10, s, IntMag(sd), 0)>> ELSE <<>>
-       [] r = 19 -> IF isint THEN <<TvF(2, s, IntMag(sd), 0)>> ELSE <<>>
-       [] r = 20 -> IF isint /\ BitLen(IntMag(sd)) < 200 THEN <<TvF(36, s, IntMag(sd), 0), TvF(3, s, IntMag(sd), 0)>> ELSE <<>>
-       \* a binary fraction m * 2^e (e < 0) is also the decimal m * 5^-e * 10^e and, when 4 | e, a base-16 float
-       [] r = 21 -> IF sd[1] # "rat" /\ sd[4] = 2 /\ sd[5] < 0 /\ sd[5] > -200
-                    THEN <<TvF(10, s, Mul(sd[3], Pow(FromNat(5), -sd[5])), sd[5])>> ELSE <<>>
-       [] r = 22 -> IF sd[1] # "rat" /\ sd[4] = 2 /\ sd[5] < 0 /\ (-sd[5]) % 4 = 0 THEN <<TvF(16, s, sd[3], -((-sd[5]) \div 4))>>
-                    ELSE IF sd[1] # "rat" /\ sd[4] = 2 /\ sd[5] < 0 /\ (-sd[5]) % 3 = 0 THEN <<TvF(8, s, sd[3], -((-sd[5]) \div 3))>> ELSE <<>>
+       [] r = 17 -> IF own /\ ~(sv.base = 2 /\ sv.exp = 0) THEN <<TvF(sv.base, s, sv.sig, sv.exp)>> ELSE <<>>     \* the seed's own base
+       [] r = 18 -> IF isint THEN <<TvF(10, s, sv.mag, 0)>> ELSE <<>>
+       [] r = 19 -> IF isint THEN <<TvF(2, s, sv.mag, 0)>> ELSE <<>>
+       [] r = 20 -> IF isint /\ BitLen(sv.mag) < 200 THEN <<TvF(36, s, sv.mag, 0), TvF(3, s, sv.mag, 0)>> ELSE <<>>
+       \* a binary fraction m * 2^e (e < 0) is also the decimal m * 5^-e * 10^e and, when 4 | e or 3 | e, a base-16 / base-8 float
+       [] r = 21 -> IF own /\ sv.base = 2 /\ sv.exp < 0 /\ sv.exp > -200
+                    THEN <<TvF(10, s, Mul(sv.sig, Pow(FromNat(5), -sv.exp)), sv.exp)>> ELSE <<>>
+       [] r = 22 -> IF own /\ sv.base = 2 /\ sv.exp < 0 /\ (-sv.exp) % 4 = 0 THEN <<TvF(16, s, sv.sig, -((-sv.exp) \div 4))>>
+                    ELSE IF own /\ sv.base = 2 /\ sv.exp < 0 /\ (-sv.exp) % 3 = 0 THEN <<TvF(8, s, sv.sig, -((-sv.exp) \div 3))>> ELSE <<>>
        [] r = 23 -> IF ~QIsZero(q) /\ IeeeRepresentable(F32, q) THEN <<TvPOf("f32", q)>> ELSE <<>>
        [] r = 24 -> IF ~QIsZero(q) /\ IeeeRepresentable(F64, q) THEN <<TvPOf("f64", q)>> ELSE <<>>
        \* the nearest doubles / floats of a value the format cannot hold: last-bit neighbours of the exact value
@@ -129,7 +144,8 @@ Pick == /\ phase = "pick" /\ phase' = "done" /\ UNCHANGED a
 Next == Pick
 Spec == Init /\ [][Next]_vars
 
-Vals == IF a <= NSeeds THEN [i \in 1..Len(Render(Seeds[a], r)) |-> [op |-> "val", cls |-> Seeds[a][1], v |-> Render(Seeds[a], r)[i]]]
+Vals == IF a <= NSeeds
+        THEN LET sv == Eval(Seeds[a])  vs == Render(sv, r) IN [i \in 1..Len(vs) |-> [op |-> "val", cls |-> sv.cls, v |-> vs[i]]]
         ELSE <<[op |-> "val", cls |-> Specials[a - NSeeds][1], v |-> Specials[a - NSeeds][2]]>>
-Emit == phase = "done" => \A i \in 1..Len(Vals) : PrintT(<<"GEN", ToJson(Vals[i])>>)
+Emit == phase = "done" => LET vs == Vals IN \A i \in 1..Len(vs) : PrintT(<<"GEN", ToJson(vs[i])>>)
 =============================================================================
